@@ -225,6 +225,22 @@ func (g *Gen) signerFor(owner *sim.User, label string) (*sim.User, bool) {
 func oltWhole(n int64) *big.Int { return new(big.Int).Mul(big.NewInt(n), e18) }
 
 func (g *Gen) note(tx txgen.Tx) txgen.Tx {
+	// the signature list is not covered by any signature: somebody else's key entry (with junk for a signature) in front
+	// of, or behind, the genuine entries — the fee step charges the first entry's account
+	if tx.Kind != "OLVM" && len(g.W.G.U.Users) > 0 && g.pct(g.Strange/4, "sig-list") {
+		var stx action.SignedTx
+		if json.Unmarshal(tx.Bytes, &stx) == nil && len(stx.Signatures) > 0 {
+			victim := g.W.G.U.Users[g.Uniform(len(g.W.G.U.Users), "sig-list-victim")]
+			extra := action.Signature{Signer: victim.Pub, Signed: []byte("sixty-four bytes that are not a signature of anything whatsoever.")}
+			if g.Uniform(3, "sig-list-where") == 0 {
+				stx.Signatures = append(stx.Signatures, extra)
+			} else {
+				stx.Signatures = append([]action.Signature{extra}, stx.Signatures...)
+			}
+			tx.Bytes = stx.SignedBytes()
+			tx.Tags = append(tx.Tags, "signature-list-extended")
+		}
+	}
 	if g.Seen != nil {
 		g.Seen[tx.Kind]++
 	}
